@@ -13,7 +13,7 @@ from autode.config import Config
 from autode.constants import Constants
 from autode.exceptions import UnsupportedCalculationInput
 from autode.log import logger
-from autode.utils import work_in_tmp_dir
+from autode.utils import work_in_tmp_dir, run_in_tmp_environment
 from autode.exceptions import CouldNotGetProperty
 
 
@@ -264,9 +264,8 @@ class MOPAC(autode.wrappers.methods.ExternalMethodOEG):
             kept_file_exts=(".mop", ".out"),
             use_ll_tmp=True,
         )
+        @run_in_tmp_environment(OMP_NUM_THREADS=calc.n_cores)
         def execute_mopac():
-            logger.info(f"Setting the number of OMP threads to {calc.n_cores}")
-            os.environ["OMP_NUM_THREADS"] = str(calc.n_cores)
             run_external(
                 params=[calc.method.path, calc.input.filename],
                 output_filename=calc.output.filename,
